@@ -1,13 +1,13 @@
 SPECIFICATION Spec
 CONSTANTS
   NW = 2
-  Family = "c12-quick"
-  PeerCounts = {1}
+  Family = "collect"
+  PeerCounts = {1, 2}
   MaxChanges = 1
   Faithful = FALSE
   ShareIdentical = FALSE
-  CachedDecide = FALSE
-  AtomicReload = FALSE
+  CachedDecide = TRUE
+  AtomicReload = TRUE
 INVARIANTS TypeOK WorkersShare DestsIsolated DefsIsolated RegistryGoals WorkerGoals PeerCountCurrent
 PROPERTIES CacheStable RegistryMonotone
 CHECK_DEADLOCK FALSE
